@@ -264,7 +264,7 @@ fn representatives() -> Vec<BitsDesc> {
 
 fn explore(ctx: &mut Ctx) {
     vcore::model::self_check().expect("reference model self-check failed");
-    let n = ctx.tier.pick(6, 8);
+    let n = ctx.tier.pick(6, 10);
     for len in 0..=n {
         for word in 0..(1u64 << len) {
             let d = BitsDesc::Word { len, word };
@@ -280,7 +280,7 @@ fn explore(ctx: &mut Ctx) {
             check_bits(ctx, &d);
         }
     }
-    let scopes: Vec<(usize, usize)> = if ctx.tier.is_thorough() { vec![(1, 8), (2, 5), (3, 4), (4, 3)] } else { vec![(1, 6), (2, 4), (3, 3), (4, 2)] };
+    let scopes: Vec<(usize, usize)> = if ctx.tier.is_thorough() { vec![(1, 10), (2, 6), (3, 4), (4, 3)] } else { vec![(1, 6), (2, 4), (3, 3), (4, 2)] };
     for &(w, l) in &scopes {
         enumr::words(1 << w, l, |word| {
             let v: Vec<u64> = word.iter().map(|&x| x as u64).collect();
